@@ -6,7 +6,6 @@ From Coq Require Import Permutation Sorted.
 From V.model Require Import Base RelAcc RelWrap RelWrapSpec.
 From V.model Require DebVersion.
 From V.proofs Require Import BaseP DebVersionP.
-Set Default Timeout 60.
 
 (* ------------------------------------------------------------------ pinsert / psort *)
 Section PSort.
